@@ -26,8 +26,12 @@ def main():
             det = {}
             if ap.returncode == 0:
                 for c in [P] + RELATED.get(P, []):
-                    r = run(f"VERIF_REPO={wt} ./check {c} quick", cwd=ROOT)
-                    v = [l for l in r.stdout.splitlines() if l.startswith("VIOLATION")]
+                    for attempt in range(2):
+                        r = run(f"VERIF_REPO={wt} ./check {c} quick", cwd=ROOT)
+                        v = [l for l in r.stdout.splitlines() if l.startswith("VIOLATION")]
+                        if r.returncode == 0 or v:
+                            break         # a non-zero exit without a VIOLATION line is the machinery falling over (e.g. edited while it ran): once more
+                        print(d, c, "exit", r.returncode, "without a verdict:", r.stdout[-400:], flush=True)
                     det[c] = {"exit": r.returncode, "violations": len(v), "with_failing_input": sum(1 for l in v if "no-failing-input-found" not in l),
                               "example": (v[0] if v else "")}
             else:
